@@ -167,6 +167,9 @@ func (xaManager *XAResourceManager) BranchCommit(ctx context.Context, branchReso
 		return branch.BranchStatusPhasetwoRollbackFailedUnretryable, err
 	}
 
+	// the connection is either the one withdrawn from the pool after phase one or one opened for this request:
+	// nobody else will use it
+	defer connectionProxyXA.CloseForce()
 	if err := connectionProxyXA.XaCommit(ctx, xaID); err != nil {
 		log.Errorf("commit xa, resourceId: %s, err %v", branchResource.ResourceId, err)
 		setBranchStatus(xaID.String(), branch.BranchStatusPhasetwoCommitted)
@@ -184,6 +187,7 @@ func (xaManager *XAResourceManager) BranchRollback(ctx context.Context, branchRe
 		return branch.BranchStatusPhasetwoRollbackFailedUnretryable, err
 	}
 
+	defer connectionProxyXA.CloseForce()
 	if err = connectionProxyXA.XaRollbackByBranchId(ctx, xaID); err != nil {
 		log.Errorf("rollback xa, resourceId: %s, err %v", branchResource.ResourceId, err)
 		setBranchStatus(xaID.String(), branch.BranchStatusPhasetwoRollbacked)
